@@ -10,6 +10,7 @@
 #include "Enum/ELoc.hpp"
 
 #include <omp.h>
+#include <sys/resource.h>
 
 namespace sk {
 
@@ -73,6 +74,13 @@ inline std::string dbDigest(const Db* db)
 inline void childInit()
 {
   omp_set_num_threads(1);
+  // the grid-format readers leak their FILE* on early returns: a sweep must not run out of descriptors
+  struct rlimit rl;
+  if (getrlimit(RLIMIT_NOFILE, &rl) == 0 && rl.rlim_cur < rl.rlim_max)
+  {
+    rl.rlim_cur = rl.rlim_max;
+    setrlimit(RLIMIT_NOFILE, &rl);
+  }
 }
 
 } // namespace sk
